@@ -52,6 +52,13 @@ func appendNextToken(l *LLk) {
 	l.tkns = append(l.tkns, lexer.Token{Type: lexer.ItemEOF})
 }
 
+// drain consumes the tokens still pending in the lexer channel so the lexer
+// goroutine can finish and does not leak when parsing stops early.
+func (l *LLk) drain() {
+	for range l.c {
+	}
+}
+
 // Current returns the current token being processed.
 func (l *LLk) Current() *lexer.Token {
 	return &l.tkns[0]
